@@ -94,6 +94,15 @@ Proof.
   intros. unfold pw. rewrite Nat2Z.inj_add, Z.pow_add_r by lia. ring.
 Qed.
 
+Theorem sched_closed_full : forall c c0, 0 < d_den c -> d_den c <= d_num c -> 0 <= c0 -> d_init c <= d_max c ->
+  forall j r, d_init c = c0 * pw (d_den c) (j + r) ->
+  sched repaired c (S j) = Z.min (c0 * pw (d_den c) r * pw (d_num c) j) (d_max c)
+  /\ (c0 * pw (d_den c) r * pw (d_num c) j) * pw (d_den c) j = d_init c * pw (d_num c) j.
+Proof.
+  intros c c0 H1 H2 H3 H4 j r H5. split; [now apply sched_closed|].
+  rewrite sched_closed_is_power. now rewrite <- H5.
+Qed.
+
 (** without the integrality assumption: never above the ideal value, never above Max, never shrinking *)
 Theorem sched_bounds : forall c, 0 < d_den c -> d_den c <= d_num c -> 0 <= d_init c -> d_init c <= d_max c ->
   forall j, 0 <= sched repaired c (S j) <= d_max c
